@@ -3,6 +3,7 @@ package props
 import (
 	"context"
 	"fmt"
+	"sort"
 	"sync"
 	"sync/atomic"
 
@@ -64,7 +65,9 @@ type c18Conn struct {
 	rerr                   error
 	werr                   error
 	readerDone, writerDone bool
-	okWrites               []uint64 // logical start times of the writes that succeeded
+	okWrites               []uint64          // logical start times of the writes that succeeded
+	n                      int               // announcement number
+	attempts               map[uint64]uint64 // envelope id -> logical start time of the Write that carried it (successful or not)
 }
 
 func c18Run(tier string, seed int64, idx int) *core.Result {
@@ -109,6 +112,12 @@ func c18Run(tier string, seed int64, idx int) *core.Result {
 	})
 	h.Install()
 	shared := wire.NewLink(0, idx%2 == 0)
+	if c.Family == "sequences" && idx%4 == 1 {
+		// one write on the shared transport fails (once): the logical connection whose Write it was
+		// learns of it; nothing else changes - in particular nobody has been cancelled
+		shared.B.FailWritesAt(1)
+		res.Stat("shared_write_faults", 1)
+	}
 	ctx, cancel := context.WithCancel(context.Background())
 	defer cancel()
 	var mu sync.Mutex
@@ -134,6 +143,7 @@ func c18Run(tier string, seed int64, idx int) *core.Result {
 		mu.Lock()
 		announced++
 		n := announced
+		cn.n = n
 		mu.Unlock()
 		w.Add(2)
 		go func() { // reader: always drains (unless gated by the scenario)
@@ -186,6 +196,12 @@ func c18Run(tier string, seed int64, idx int) *core.Result {
 				e := &wire.Rpc{Id: uint64(n)<<32 | uint64(i), Header: &goatorepo.RequestHeader{Method: "/w", Source: fmt.Sprintf("conn%d", n), Destination: "peer",
 					Headers: []*goatorepo.KeyValue{{Key: "k", Value: fmt.Sprint(i)}}}, Body: &goatorepo.Body{Data: []byte{byte(i), 0xff, 0}}}
 				startTick := wire.Tick()
+				cn.mu.Lock()
+				if cn.attempts == nil {
+					cn.attempts = map[uint64]uint64{}
+				}
+				cn.attempts[e.Id] = startTick
+				cn.mu.Unlock()
 				if err := rw.Write(ctx, e); err != nil {
 					cn.mu.Lock()
 					cn.werr = err
@@ -347,6 +363,9 @@ func c18Run(tier string, seed int64, idx int) *core.Result {
 	mu.Lock()
 	for _, key := range keys {
 		var got []uint64
+		// connections register themselves at their first read, which may be scheduled after a later
+		// connection's: put them in announcement order
+		sort.Slice(conns[key], func(i, j int) bool { return conns[key][i].n < conns[key][j].n })
 		for _, cn := range conns[key] {
 			cn.mu.Lock()
 			for _, m := range cn.got {
@@ -444,6 +463,20 @@ func c18Run(tier string, seed int64, idx int) *core.Result {
 				if late > 0 {
 					res.Violate("write-on-cancelled-connection-succeeds", "%d Write calls started after Cancel(%s) had returned succeeded on its logical connection", late, victim)
 				}
+				// a write on a cancelled connection fails: it returns an error and it does not transmit
+				leaked, lateAttempts := 0, 0
+				for id, t := range cn.attempts {
+					if t > cancelTick {
+						lateAttempts++
+						if seen[id] > 0 {
+							leaked++
+						}
+					}
+				}
+				if leaked > 0 {
+					res.Violate("write-after-cancel-reaches-shared-transport", "%d envelopes whose Write started after Cancel(%s) had returned were written to the shared transport", leaked, victim)
+				}
+				res.Stat("write_attempts_after_cancel", int64(lateAttempts))
 				res.Stat("writes_after_cancel_checked", 1)
 			}
 			cn.mu.Unlock()
@@ -491,7 +524,7 @@ func init() {
 	core.Register(&core.Prop{
 		ID:             "C18",
 		Level:          "fault_enumeration",
-		Rule:           "(sequences) 1..8 keys, 200..600 uniquely numbered envelopes with random keys on the shared link, one always-draining reader and one writer goroutine per announced logical connection: per key the sequence read equals the fed subsequence, one announcement per key, every envelope written on a logical connection arrives unchanged exactly once on the shared transport. (cancel / cancel-writer) Cancel(key) after step s, with a writer hammering the connection; (cancel-handoff) Cancel placed by a rendezvous hook exactly between Run's lookup and its hand-off; (stop / stop-handoff) Stop after step s, also while Run is parked handing over to consumers that do not read: the process must survive, reads/writes on the cancelled connection return, Run returns - all judged at final states. (rpc) C01 fan-in cases and C02 cases forced through k clients - fan-in - Demux - one Server. Distinct = case tuples; all non-trivial.",
+		Rule:           "(sequences) 1..8 keys, 200..600 uniquely numbered envelopes with random keys on the shared link, one always-draining reader and one writer goroutine per announced logical connection: per key the sequence read equals the fed subsequence, one announcement per key, every envelope written on a logical connection arrives unchanged exactly once on the shared transport; every fourth case the shared transport fails one write and works again: the writers go on, every later write must return and nothing whose Write returned nil may be missing. (cancel / cancel-writer) Cancel(key) after step s, with a writer hammering the connection: no Write begun after Cancel returned succeeds, and none of their envelopes reaches the shared transport; (cancel-handoff) Cancel placed by a rendezvous hook exactly between Run's lookup and its hand-off; (stop / stop-handoff) Stop after step s, also while Run is parked handing over to consumers that do not read: the process must survive, reads/writes on the cancelled connection return, Run returns - all judged at final states. (rpc) C01 fan-in cases and C02 cases forced through k clients - fan-in - Demux - one Server. Distinct = case tuples; all non-trivial.",
 		Plan:           func(tier string, seed int64) int { return len(c18List(tier)) },
 		ThoroughRounds: 8,
 		Run:            c18Run,
